@@ -16,7 +16,10 @@ def install(R: Registry):
         last_count="Int",      # msg_count field of the last header handed to sendall
         is_listen="Bool",
     ))
-    R.declare_class("Buffer", external=True, fields=dict(base="Buffer"), ghost={})
+    R.declare_class("Buffer", external=True, fields=dict(base="Buffer"), ghost=dict(
+        owner="MessageManager",   # the manager whose receive buffer this is (null for other byte objects)
+        role="Int",               # 1: header receive buffer / view, 2: payload receive buffer / view, 0: anything else
+    ))
     R.declare_class("RTMALogger", external=True, fields={}, ghost=dict(owner="MessageManager"))
     m = R.declare_class("Module", fields=dict(
         uid="Int", conn="Socket", address="Address", header_cls="Cls", name="Str", mod_id="Int", pid="Int",
@@ -50,7 +53,8 @@ def install(R: Registry):
     R.ghost_global("delivered", "Map[Int, Map[Module, Int]]")   # delivered[gid][m]: frames of gid handed to m
     R.ghost_global("stray", "Map[Int, Int]")               # frames sent during gid with another header/payload object
     R.ghost_global("notice", "Map[Int, Map[Module, Int]]")      # FAILED_MESSAGE raised for (gid, m)
-    R.ghost_global("acks", "Map[Module, Int]")             # ACK frames written directly to m
+    R.ghost_global("acks", "Map[Module, Int]")             # ACK frames written directly to m by send_ack
+    R.ghost_global("ack_copies", "Map[Module, Int]")       # ACK copies written to logger m by send_to_loggers
     R.ghost_global("closed_notices", "Map[Module, Int]")   # CLIENT_CLOSED published for m
 
     R.assume_text(
